@@ -273,6 +273,21 @@ def mux_check(prop, tier, seed, replay):
                 transitions += r["states"]
                 mc_runs.append(dict(config=cfg, distinct_states=r["distinct"], states_generated=r["states"], wall_s=round(r["wall"], 1)))
                 log(f"[mc] {cfg}: {r['distinct']} distinct states, {r['states']} generated, {r['wall']:.1f}s, all invariants hold")
+            # 1b. C03, unbounded: Apalache proves the credit-conservation invariant of spec/apalache/Credit.tla
+            #     inductive for ALL windows W and thresholds T (no bound on the number of frames)
+            if prop == "C03" and tier == "thorough":
+                ap = os.path.join(vlib.SPEC, "apalache")
+                runs = [["--init=Init", "--inv=IndInv", "--length=0"], ["--init=IndInit", "--inv=IndInv", "--length=1"],
+                        ["--init=IndInit", "--inv=NoOverrun", "--length=0"], ["--init=IndInit", "--inv=AckSound", "--length=0"]]
+                for extra in runs:
+                    outdir = os.path.join(work, "apalache")
+                    rc, o = vlib.run(["apalache-mc", "check", "--cinit=ConstInit", f"--out-dir={outdir}", *extra, "Credit.tla"], timeout=900, cwd=ap)
+                    if "EXITCODE: OK" not in o:
+                        log(o[-1500:])
+                        raise ToolError("Apalache did not discharge " + " ".join(extra))
+                mc_runs.append(dict(config="apalache Credit.tla", obligations=4, discharged=4,
+                                    note="IndInv holds initially, is inductive, and implies NoOverrun and AckSound, for all W >= T >= 1"))
+                log("[apalache] Credit.tla: inductive invariant proved for all W, T (4 obligations)")
             # 2. the implementation: harness-random schedules executed on the real code
             batches = []
             for k, (mode, count, steps) in enumerate(P["sims"][tier]):
